@@ -60,11 +60,48 @@ pub struct Base {
     bytes: Vec<u8>,
     loc: R,
     li: RL,
+    /// the stand-alone extension parser on the text after the language-id prefix
+    ext: Option<RE>,
 }
 impl Base {
     pub fn new(b: &[u8]) -> Base {
-        Base { bytes: b.to_vec(), loc: pl(b), li: pli(b) }
+        Base { bytes: b.to_vec(), loc: pl(b), li: pli(b), ext: ext_tail(b).map(pe) }
     }
+}
+
+#[derive(PartialEq)]
+enum RE {
+    Ok(unic_locale_impl::ExtensionsMap, String),
+    Err,
+    Panic(String),
+}
+fn pe(b: &[u8]) -> RE {
+    match guard(|| unic_locale_impl::ExtensionsMap::from_bytes(b)) {
+        Out::Ok(e) => {
+            let s = e.to_string();
+            RE::Ok(e, s)
+        }
+        Out::Err(_) => RE::Err,
+        Out::Panic(p) => RE::Panic(p),
+    }
+}
+fn show_re(r: &RE) -> String {
+    match r {
+        RE::Ok(_, s) => format!("Ok({})", s),
+        RE::Err => "Err".into(),
+        RE::Panic(p) => format!("PANIC({})", p),
+    }
+}
+/// the bytes after the language-id prefix (language, script, region, variants as the
+/// reference grammar delimits them; the same number of tokens in every transformed version)
+fn ext_tail(b: &[u8]) -> Option<&[u8]> {
+    let tokens = refmodel::split_tokens(b);
+    let (_, n) = refmodel::langid_prefix(&tokens, 0).ok()?;
+    if n >= tokens.len() {
+        return None;
+    }
+    let off: usize = tokens.iter().take(n).map(|t| t.len() + 1).sum();
+    Some(&b[off.min(b.len())..])
 }
 
 /// compares the transformed input with the base; `what` names the transformation
@@ -82,6 +119,21 @@ pub fn check_pair(base: &Base, t: &[u8], what: &'static str, l: &mut Local, coll
     }
     if let R::Ok(..) = r {
         l.counters[1] += 1;
+    }
+    // the same law for the stand-alone extension parser (ExtensionsMap::from_bytes / FromStr)
+    {
+        if let (Some(be), Some(tt)) = (&base.ext, ext_tail(t)) {
+            let re = pe(tt);
+            if re != *be || matches!(re, RE::Panic(_)) {
+                coll.push(l.order, Violation {
+                    sub: "c09.extensions",
+                    class: format!("{}: ExtensionsMap::from_bytes results differ on the extension part", what),
+                    case: Case::Text(format!("mpair:{}|{}", hex(&base.bytes), hex(t))),
+                    expected: format!("{} for {}", show_re(be), lossy(&base.bytes)),
+                    observed: format!("{} for {}", show_re(&re), lossy(t)),
+                });
+            }
+        }
     }
     let rl = pli(t);
     if rl != base.li || matches!(rl, RL::Panic(_)) {
